@@ -9,8 +9,9 @@
   (B) per op family: once the modelled `validate` accepted, every block a task addresses exists (and, for the
       region store, has the shape the write expects).  Where the unchanged code falsifies this the full
       statement is kept as a `def … : Prop`, with `…_partial` under an explicit hypothesis and `…_fails` from a
-      concrete witness (scan, stack, repeat, map_blocks, legacy pairwise fusion; the region store was repaired by `fix:`
-      commits and is proved for the repaired code, the old witnesses are kept as theorems about the old variant).
+      concrete witness (stack with zero-size inputs, repeat, map_blocks, legacy pairwise fusion).  scan, stack and the
+      region store were repaired by `fix:` commits: they are proved for the repaired code, and the old witnesses are kept
+      as theorems about the old variants (`…_old…`).
   (C) the assertion conditions that follow from validated inputs.
 -/
 import CubedModel.Proofs.Validate
@@ -23,8 +24,8 @@ open Cubed Cubed.Validate
 
 /-! ## (A) assert table -/
 
-/-- Every assert found in the source is classified, and the only one classified `reachable` is a listed
-finding.  A new `assert` in the code (or a changed test expression) breaks this obligation. -/
+/-- Every assert found in the source is classified, and none is classified `reachable` any more
+(the scan assertion is discharged by `C17_scan_assert_unreachable` since fix 5fff6ae).  A new `assert` in the code (or a changed test expression) breaks this obligation. -/
 theorem C17_asserts_classified : ∀ a ∈ GeneratedC17.asserts, recordOk a = true := by decide
 
 /-- The classification table names no record that has disappeared from the source (no stale entries). -/
@@ -35,6 +36,9 @@ theorem C17_model_tied_to_source :
     GeneratedC17.scanSplitEvery = 5 ∧
     GeneratedC17.scanAssert = "increment.shape[axis] == scanned.numblocks[axis]" ∧
     GeneratedC17.scanIncKeyExpr = "bi // split_every" ∧
+    GeneratedC17.scanReducedSizes = "(split_size,) * num_full + ((num_rest,) if num_rest else ())" ∧
+    GeneratedC17.scanDivmod = "divmod(array.numblocks[axis], split_size)" ∧
+    GeneratedC17.scanPassesReducedSizes = true ∧
     GeneratedC17.helperCallSites = 0 ∧
     GeneratedC17.legacyFuseGuard = "primitive_op1.num_tasks == primitive_op2.num_tasks" := by decide
 
@@ -128,14 +132,8 @@ theorem C17_accepted_total_concat (sizes csizes : List Nat) (C bi : Nat)
 example : concatKeys [4, 3] [2, 2] 2 2 = some [(1, 0)] ∧ concatKeys [3, 4] [2, 2] 2 1 = some [(0, 1), (1, 0)] := by
   decide
 
-/-- stack, full statement: whatever `validateStack` accepts addresses existing blocks. -/
-def C17_stack_total : Prop :=
-  ∀ (arrs : List Arr) (axis : Int) (ax : Nat), validateStack arrs axis = .ok () →
-    (∃ a0 rest, arrs = a0 :: rest ∧ validateAxis axis (a0.ndim + 1) = .ok ax) →
-    ∀ out, inGrid (stackGrid arrs ax) out = true → stackKeyOk arrs ax out = true
-
-/-- … holds when every input has the block grid of the first. -/
-theorem C17_stack_total_partial (a0 : Arr) (rest : List Arr) (ax : Nat) (hax : ax ≤ a0.ndim)
+/-- stack, generic lemma: when every input has the block grid of the first, every designated block exists. -/
+theorem C17_stack_same_grid_total (a0 : Arr) (rest : List Arr) (ax : Nat) (hax : ax ≤ a0.ndim)
     (hsame : ∀ a ∈ a0 :: rest, (List.range a.ndim).map a.nb = (List.range a0.ndim).map a0.nb)
     (out : List Nat) (hout : inGrid (stackGrid (a0 :: rest) ax) out = true) :
     stackKeyOk (a0 :: rest) ax out = true := by
@@ -153,15 +151,74 @@ theorem C17_stack_total_partial (a0 : Arr) (rest : List Arr) (ax : Nat) (hax : a
   rw [hsame _ (List.getElem_mem hil)]
   exact hi3
 
-/-- … and fails in general: `validateStack` does not look at the other inputs' chunking.  Witness: two arrays
-of shape (2,), the first in two blocks, the second in one; out block (1, 1) addresses block 1 of the second. -/
+/-- stack (after fix f3856f5), full statement: whatever `validateStack` accepts addresses existing blocks of the
+inputs as they are after the unification step (`stackUnify`). -/
+def C17_stack_total : Prop :=
+  ∀ (arrs : List Arr) (axis : Int) (ax : Nat), validateStack arrs axis = .ok () →
+    (∃ a0 rest, arrs = a0 :: rest ∧ validateAxis axis (a0.ndim + 1) = .ok ax ∧ ax ≤ a0.ndim) →
+    ∀ out, inGrid (stackGrid arrs ax) out = true → stackKeyOk (stackUnify arrs) ax out = true
+
+/-- … holds when no zero-size input is chunked differently from the first (every other input is rechunked). -/
+theorem C17_stack_total_partial (a0 : Arr) (rest : List Arr) (axis : Int) (ax : Nat) (hax : ax ≤ a0.ndim)
+    (hv : validateStack (a0 :: rest) axis = .ok ())
+    (hz : ∀ x ∈ rest, x.size = 0 → x.chunksize = a0.chunksize)
+    (out : List Nat) (hout : inGrid (stackGrid (a0 :: rest) ax) out = true) :
+    stackKeyOk (stackUnify (a0 :: rest)) ax out = true := by
+  -- all shapes equal the first's
+  have hshape : ∀ x ∈ rest, x.shape = a0.shape := by
+    intro x hx
+    simp only [validateStack] at hv
+    split at hv
+    · cases hv
+    · rename_i hany
+      have : ¬ ((a0 :: rest).any (fun y => y.shape != a0.shape) = true) := hany
+      simp only [List.any_eq_true, not_exists, not_and] at this
+      have h := this x (List.mem_cons_of_mem _ hx)
+      simpa using h
+  have hunif : ∀ x ∈ rest, (if x.size = 0 then x else { x with chunksize := a0.chunksize }) = a0 := by
+    intro x hx
+    have hs := hshape x hx
+    by_cases h0 : x.size = 0
+    · have hc := hz x hx h0
+      simp only [h0, if_true]
+      cases x; cases a0; simp_all
+    · simp only [h0, if_false]
+      cases x; cases a0; simp_all
+  have hsame : ∀ a ∈ a0 :: rest.map (fun x => if x.size = 0 then x else { x with chunksize := a0.chunksize }),
+      (List.range a.ndim).map a.nb = (List.range a0.ndim).map a0.nb := by
+    intro a ha
+    rcases List.mem_cons.mp ha with h | h
+    · rw [h]
+    · obtain ⟨x, hx, hxe⟩ := List.mem_map.mp h
+      rw [← hxe, hunif x hx]
+  have hgrid : stackGrid (a0 :: rest.map (fun x => if x.size = 0 then x else { x with chunksize := a0.chunksize })) ax
+      = stackGrid (a0 :: rest) ax := by simp [stackGrid]
+  exact C17_stack_same_grid_total a0 _ ax hax hsame out (by rw [hgrid]; exact hout)
+
+example : validateStack [⟨[2], [1]⟩, ⟨[2], [2]⟩] 0 = .ok () ∧
+    stackKeyOk (stackUnify [⟨[2], [1]⟩, ⟨[2], [2]⟩]) 0 [1, 1] = true := by decide
+
+/-- … and still fails for zero-size inputs, which `rechunk` leaves as they are: two (4, 0) arrays in (3, 1) and
+(4, 1) chunks — out block (1, 1, 0) addresses block (1, 0) of the second input, which has a single block. -/
 theorem C17_stack_total_fails : ¬ C17_stack_total := by
+  intro h
+  have := h [⟨[4, 0], [3, 1]⟩, ⟨[4, 0], [4, 1]⟩] 0 0 (by decide) ⟨_, _, rfl, by rfl, by decide⟩ [1, 1, 0] (by decide)
+  revert this
+  decide
+
+/-- OLD variant (before fix f3856f5), full statement: whatever the old `stack` accepted addressed existing blocks. -/
+def C17_stack_total_old : Prop :=
+  ∀ (arrs : List Arr) (axis : Int) (ax : Nat), validateStackOld arrs axis = .ok () →
+    (∃ a0 rest, arrs = a0 :: rest ∧ validateAxis axis (a0.ndim + 1) = .ok ax) →
+    ∀ out, inGrid (stackGrid arrs ax) out = true → stackKeyOk arrs ax out = true
+
+/-- OLD variant failed: the other inputs' chunking was not looked at.  Witness: two arrays of shape (2,), the first
+in two blocks, the second in one; out block (1, 1) addressed block 1 of the second. -/
+theorem C17_stack_total_old_fails : ¬ C17_stack_total_old := by
   intro h
   have := h [⟨[2], [1]⟩, ⟨[2], [2]⟩] 0 0 (by decide) ⟨_, _, rfl, by rfl⟩ [1, 1] (by decide)
   revert this
   decide
-
-example : stackKeyOk [⟨[4], [2]⟩, ⟨[4], [2]⟩] 0 [1, 1] = true := by decide
 
 /-- region store (the code after the `fix:` commits d416aac / ba97b91): whatever `validateRegion` accepts — unit
 steps, bounds normalised by `slice.indices`, start aligned, region of the source's length — makes every task read an
@@ -265,54 +322,58 @@ theorem C17_region_addressing_old_fails :
     regionTaskOkOld ⟨4, 4, 12, 4, some 4, some 12, some 2⟩ 2 = false ∧
     validateRegionOld ⟨17, 2, 16, 2, none, none, none⟩ = .ok () := by decide
 
-/-- scan, full statement: building a cumulative op never trips the bare assertion. -/
-def C17_scan_total : Prop :=
-  ∀ nb len fuel : Nat, 1 ≤ nb → nb ≤ fuel → scanBuild GeneratedC17.scanSplitEvery fuel len nb ≠ none
+/-- scan (after fix 5fff6ae): building a cumulative op never trips the assertion, whatever the number of blocks. -/
+theorem C17_accepted_total_scan (fuel len nb : Nat) (h1 : 1 ≤ nb) (hf : nb ≤ fuel + 1) :
+    scanBuild GeneratedC17.scanSplitEvery fuel len nb = some len :=
+  scanBuild_total fuel len nb h1 hf
 
-/-- … holds for up to `split_every` blocks along the axis … -/
-theorem C17_scan_total_partial_small (fuel len nb : Nat) (h1 : 1 ≤ nb) (hle : nb ≤ GeneratedC17.scanSplitEvery) :
-    scanBuild GeneratedC17.scanSplitEvery (fuel + 1) len nb = some len :=
-  scanBuild_small _ fuel len nb h1 hle
+example : scanBuild 5 6 6 6 = some 6 ∧ scanBuild 5 30 30 30 = some 30 := by decide
 
-/-- … and for an exact multiple exactly when the recursive call on the reduced array is accepted. -/
-theorem C17_scan_total_partial_multiple (fuel len q : Nat) (hq : 1 ≤ q) :
-    scanBuild GeneratedC17.scanSplitEvery (fuel + 1) len (GeneratedC17.scanSplitEvery * q)
-      = (scanBuild GeneratedC17.scanSplitEvery fuel (GeneratedC17.scanSplitEvery * q) q).map (fun _ => len) :=
-  scanBuild_multiple _ fuel len q (by decide) hq
+/-- the asserted condition `increment.shape[axis] == scanned.numblocks[axis]`: scan keeps the axis length
+(`scanBuild_some`), and the declared sizes of `reduced` add up to the number of blocks, for every split size. -/
+theorem C17_scan_assert_unreachable (ss nb : Nat) : (reducedSizes ss nb).sum = nb :=
+  reducedSizes_sum ss nb
 
-example : scanBuild 5 25 25 25 = some 25 ∧ scanBuild 5 10 10 10 = some 10 := by decide
+example : reducedSizes 5 13 = [5, 5, 3] := by decide
 
-/-- The assertion fails whenever the axis has more than `split_every` blocks and not a multiple of it
+/-- the increment block `bi // split_every` exists and the slot `bi % split_every` lies inside its declared size. -/
+theorem C17_scan_lookup_in_range (nb bi : Nat) (hbi : bi < nb) :
+    ∃ sz, (reducedSizes (min GeneratedC17.scanSplitEvery nb) nb)[scanIncKey GeneratedC17.scanSplitEvery bi]? = some sz ∧
+      scanIncSlot GeneratedC17.scanSplitEvery bi < sz :=
+  scan_lookup nb bi hbi
+
+example : scanIncKey 5 12 = 2 ∧ scanIncSlot 5 12 = 2 ∧ (reducedSizes 5 13)[2]? = some 3 := by decide
+
+/-- OLD variant (before fix 5fff6ae), full statement: building a cumulative op never trips the bare assertion. -/
+def C17_scan_total_old : Prop :=
+  ∀ nb len fuel : Nat, 1 ≤ nb → nb ≤ fuel → scanBuildOld GeneratedC17.scanSplitEvery fuel len nb ≠ none
+
+/-- OLD variant held for up to `split_every` blocks along the axis … -/
+theorem C17_scan_total_old_partial_small (fuel len nb : Nat) (h1 : 1 ≤ nb) (hle : nb ≤ GeneratedC17.scanSplitEvery) :
+    scanBuildOld GeneratedC17.scanSplitEvery (fuel + 1) len nb = some len :=
+  scanBuildOld_small _ fuel len nb h1 hle
+
+/-- … and for an exact multiple exactly when the recursive call on the reduced array was accepted. -/
+theorem C17_scan_total_old_partial_multiple (fuel len q : Nat) (hq : 1 ≤ q) :
+    scanBuildOld GeneratedC17.scanSplitEvery (fuel + 1) len (GeneratedC17.scanSplitEvery * q)
+      = (scanBuildOld GeneratedC17.scanSplitEvery fuel (GeneratedC17.scanSplitEvery * q) q).map (fun _ => len) :=
+  scanBuildOld_multiple _ fuel len q (by decide) hq
+
+example : scanBuildOld 5 25 25 25 = some 25 ∧ scanBuildOld 5 10 10 10 = some 10 := by decide
+
+/-- OLD variant: the assertion failed whenever the axis had more than `split_every` blocks and not a multiple of it
 (6, 7, 8, 9, 11, … blocks) … -/
-theorem C17_scan_assert_fails_general (fuel len nb : Nat) (hgt : GeneratedC17.scanSplitEvery < nb)
+theorem C17_scan_assert_old_fails_general (fuel len nb : Nat) (hgt : GeneratedC17.scanSplitEvery < nb)
     (hmod : nb % GeneratedC17.scanSplitEvery ≠ 0) :
-    scanBuild GeneratedC17.scanSplitEvery fuel len nb = none :=
-  scanBuild_fails _ fuel len nb (by decide) hgt hmod
+    scanBuildOld GeneratedC17.scanSplitEvery fuel len nb = none :=
+  scanBuildOld_fails _ fuel len nb (by decide) hgt hmod
 
-/-- … and also for multiples whose quotient fails in turn (30 = 5·6). -/
-theorem C17_scan_assert_fails_nested : scanBuild GeneratedC17.scanSplitEvery 30 30 30 = none := by decide
+/-- … and also for multiples whose quotient failed in turn (30 = 5·6). -/
+theorem C17_scan_assert_old_fails_nested : scanBuildOld GeneratedC17.scanSplitEvery 30 30 30 = none := by decide
 
-theorem C17_scan_total_fails : ¬ C17_scan_total := by
+theorem C17_scan_total_old_fails : ¬ C17_scan_total_old := by
   intro h
   exact h 6 6 6 (by omega) (by omega) (by decide)
-
-/-- When scan is accepted, the increment block `bi // split_every` exists and the slot `bi % split_every` lies
-inside it. -/
-theorem C17_scan_lookup_in_range_small (nb bi : Nat) (hle : nb ≤ GeneratedC17.scanSplitEvery) (hbi : bi < nb) :
-    scanIncKey GeneratedC17.scanSplitEvery bi
-        < (nb + min GeneratedC17.scanSplitEvery nb - 1) / min GeneratedC17.scanSplitEvery nb ∧
-      scanIncSlot GeneratedC17.scanSplitEvery bi < min GeneratedC17.scanSplitEvery nb :=
-  scan_lookup_small _ nb bi hle hbi
-
-theorem C17_scan_lookup_in_range_multiple (q bi : Nat) (hq : 1 ≤ q) (hbi : bi < GeneratedC17.scanSplitEvery * q) :
-    scanIncKey GeneratedC17.scanSplitEvery bi
-        < (GeneratedC17.scanSplitEvery * q + min GeneratedC17.scanSplitEvery (GeneratedC17.scanSplitEvery * q) - 1)
-            / min GeneratedC17.scanSplitEvery (GeneratedC17.scanSplitEvery * q) ∧
-      scanIncSlot GeneratedC17.scanSplitEvery bi
-        < min GeneratedC17.scanSplitEvery (GeneratedC17.scanSplitEvery * q) :=
-  scan_lookup_multiple _ q bi (by decide) hq hbi
-
-example : scanIncKey 5 7 = 1 ∧ scanIncSlot 5 7 = 2 := by decide
 
 /-- map_blocks, full statement: a build that raised nothing has a well-formed key function. -/
 def C17_mapblocks_total : Prop := ∀ p : MapBlocksP, validateMapBlocks p ≠ .malformed
